@@ -115,3 +115,21 @@ PROPS["C04"] = Prop(
     nontrivial=lambda l: int(l.split()[5]) >= 2,
     histogram=G.lu_histogram,
 )
+
+import params2coq
+
+PROPS["C08"] = Prop(
+    "C08",
+    family_driver={},
+    model_families=set(),
+    generate=lambda rng, tier: ["table two_stage", "table three_stage", "table four_stage", "table four_stage_da",
+                                "table six_stage_da"],
+    rule="the five built-in coefficient tables, regenerated from the headers by the translator on this run (complete, "
+         "finite domain); every order condition up to the documented order, the next order's violation, embedded order, "
+         "row sums, R(inf), packed index range, default controls",
+    trusted=["translator: harness/dump_tables.cpp (prints the factory results as hex floats) + tools/params2coq.py "
+             "(hex float -> exact Q literal)", "Coq 8.16.1 vm_compute over Q"],
+    assumptions=["order conditions of Hairer-Wanner IV.7 for constant diagonal gamma, tolerance 2^-40 on residuals"],
+    translators=(params2coq.generate,),
+    extra_vo=("gen/RosParams.vo",),
+)
